@@ -133,6 +133,7 @@ type Result struct {
 	Inputs        map[string]string          `json:"-"`               // sha of every input file after the run
 	InputsChanged []string                   `json:"inputs_changed,omitempty"`
 	DurMs         float64                    `json:"dur_ms"`
+	Race          string                     `json:"race,omitempty"` // race detector report that appeared during this run (race builds only)
 }
 
 var (
@@ -504,6 +505,7 @@ func Exec(t Target, w *World) *Result {
 			ctl.AltSites[s] = true
 		}
 	}
+	racePath, raceBefore := raceLog()
 	t0 := time.Now()
 	done := make(chan struct{})
 	go func() {
@@ -528,6 +530,16 @@ func Exec(t Target, w *World) *Result {
 		res.Panic = "hang: no result within " + HangBudget.String()
 	}
 	simrt.End()
+	if racePath != "" {
+		if _, after := raceLog(); after > raceBefore {
+			if b, err := os.ReadFile(racePath); err == nil && int64(len(b)) >= after {
+				res.Race = string(b[raceBefore:after])
+				if len(res.Race) > 6000 {
+					res.Race = res.Race[:6000]
+				}
+			}
+		}
+	}
 	res.DurMs = float64(time.Since(t0).Microseconds()) / 1000
 	os.Args = oldArgs
 	restoreEnv()
@@ -571,4 +583,18 @@ func Exec(t Target, w *World) *Result {
 		}
 	}
 	return res
+}
+
+// raceLog returns the race detector's log file of this process and its current size.
+func raceLog() (string, int64) {
+	p := os.Getenv("VERIFSIM_RACELOG")
+	if p == "" {
+		return "", 0
+	}
+	p = fmt.Sprintf("%s.%d", p, os.Getpid())
+	fi, err := os.Stat(p)
+	if err != nil {
+		return p, 0
+	}
+	return p, fi.Size()
 }
